@@ -212,6 +212,11 @@ func (fs LocalFileSystem) RemoveAll(ctx context.Context, name string, opts *Remo
 		return err
 	}
 
+	// The served directory itself lives in a directory which isn't ours
+	if p == filepath.Clean(string(fs)) {
+		return NewHTTPError(http.StatusForbidden, fmt.Errorf("webdav: cannot delete the root collection"))
+	}
+
 	// WebDAV semantics are that it should return a "404 Not Found" error in
 	// case the resource doesn't exist. We need to Stat before RemoveAll.
 	fi, err := fs.Stat(ctx, name)
